@@ -35,6 +35,11 @@ THEOREMS = ["Pfl.Nx.FA.roundtrip",
             "Pfl.Nx.PDA.roundtrip_needs_hidden",
             "Pfl.TextCodec.fromText_toText",
             "Pfl.TextCodec.fromText_toText_needs_not_special",
+            "Pfl.Ebnf.bodies_lines",
+            "Pfl.Ebnf.group_spec",
+            "Pfl.Ebnf.grouped_parse",
+            "Pfl.Ebnf.fromEbnf_box_lang",
+            "Pfl.Ebnf.epsilon_token",
             "Pfl.Rx.box_lang",
             "Pfl.LabelCodec.readPdaLabel_pdaLabel",
             "Pfl.LabelCodec.readFstLabel_fstLabel",
@@ -196,6 +201,61 @@ def generate(rng, tier):
         yield {"fa": fa, "pda": pda, "fst": fst, "g": g, "ebnf": lines, "toks": toks, "nx": c20nx.gen(rng), "txt": c20txt.gen(rng)}
 
 
+EBNF_BLANKS = [" ", "  ", "\t", "\xa0", "\u2003"]
+EBNF_BREAKS = ["\n", "\r\n", "\r", "\x0b", "\x0c", "\x85", "\u2028", "\n\n", "\n  \n", "\nno arrow here\n"]
+
+
+def ebnf_text_tie(text, case, drv, res):
+    """text side of from_ebnf against Pfl/Model/Ebnf.lean: the texts handed to Regex (one per head, in dict
+    order, then the start body once more) are recorded by wrapping the Regex name of the rsa module; the text is
+    also edited (other line boundaries and blanks, blank lines, lines without arrow, a second arrow)"""
+    import random
+    from pyformlang.rsa import recursive_automaton as RA
+    r = random.Random(int(case_key(case), 16))
+    t = text
+    if r.random() < 0.6:
+        t = "".join((r.choice(EBNF_BREAKS) if ch == "\n" and r.random() < 0.6 else
+                     r.choice(EBNF_BLANKS) if ch == " " and r.random() < 0.2 else ch) for ch in t)
+    if r.random() < 0.1:
+        t = t.replace("->", "-> ->", 1)
+    if r.random() < 0.2:
+        t = r.choice(["", " ", "\n"]) + t + r.choice(["", "\n", " \n "])
+    model = drv.call("txt.ebnf", texts=[t])[0]
+    seen = []
+    real = RA.Regex
+
+    class Recording(real):          # pylint: disable=too-few-public-methods
+        def __init__(self, regex, *a, **k):
+            seen.append(regex)
+            super().__init__(regex, *a, **k)
+    RA.Regex = Recording
+    try:
+        got = outcome(lambda: RecursiveAutomaton.from_ebnf(t), limit=8.0)
+    finally:
+        RA.Regex = real
+    res.corr += 1
+    if got[0] == "timeout":
+        return
+    if got[0] == "exc" and got[1] == "ValueError":
+        if model is not None:
+            res.corr_break("from_ebnf", "ValueError although the model reads the text", detail={"text": t, "model": model})
+        return
+    if model is None:
+        res.corr_break("from_ebnf", "the model raises (a line with two arrows), the implementation does not",
+                       detail={"text": t, "impl": got[0]})
+        return
+    want = [b for _, b in model]
+    # the bodies are handed to Regex in dict order; a misformed body stops the loop there
+    if seen[:len(want)] != want[:len(seen)] or (got[0] == "ok" and seen[:-1] != want):
+        res.corr_break("from_ebnf", "texts handed to Regex differ from the model", detail={"text": t, "impl": seen, "model": model})
+        return
+    if got[0] == "ok":
+        heads = sorted(str(s.value) for s in got[1].nonterminals)
+        if heads != sorted(h for h, _ in model):
+            res.corr_break("from_ebnf", "heads differ from the model", detail={"text": t, "impl": heads, "model": model})
+    res.tag("ebnf_text_tie")
+
+
 def run_case(case, drv):
     res = CaseResult()
     # ---- finite automaton ------------------------------------------------------------------------
@@ -297,6 +357,7 @@ def run_case(case, drv):
                               detail={"head": h, "bodies": bodies, "word": e["word"]})
     elif got[0] == "exc" and got[1] != "MisformedRegexError":
         res.violation("from_ebnf", "raised %s" % got[1], detail={"text": text})
+    ebnf_text_tie(text, case, drv, res)
     # from_regex
     b0 = lines[0][1] if lines[0][1].strip() else "$"
     got = outcome(lambda: (X.tree_of(Regex(b0)), RecursiveAutomaton.from_regex(Regex(b0), "S")), limit=8.0)
